@@ -1964,3 +1964,132 @@ def _(E, c):
     if is_sym(n):
         raise Inconclusive('vec![x; symbolic]')
     return VecV([c.args[0]] * n, c.dest_ty)
+
+
+# ---------------------------------------------------------------------------------------
+# itertools adaptors and iter::from_fn used by vesting_state.rs / deadline code (lazy state machines)
+
+class FromFnIter(Iter):
+    def __init__(self, f):
+        self.f = f
+
+    def next(self, E):
+        r = E.call_callable(self.f, [])
+        n, rv = variant(E, r)
+        if n == 'Some':
+            return payload(E, rv, 'Some')
+        return None
+
+
+class MergeJoinIter(Iter):
+    """itertools::merge_join_by with an Ordering-valued comparator"""
+
+    def __init__(self, a, b, cmp):
+        self.a, self.b, self.cmp = PeekIter(a), PeekIter(b), cmp
+
+    def next(self, E):
+        x = self.a.peek(E)
+        y = self.b.peek(E)
+        if x is None and y is None:
+            return None
+        if x is None:
+            return mk_enum('EitherOrBoth', 'EitherOrBoth', 'Right', [self.b.next(E)])
+        if y is None:
+            return mk_enum('EitherOrBoth', 'EitherOrBoth', 'Left', [self.a.next(E)])
+        o = E.call_callable(self.cmp, [RefV(Cell(x, 'mj_a'), ()), RefV(Cell(y, 'mj_b'), ())])
+        n, ov = variant(E, o)
+        if n == 'Less':
+            return mk_enum('EitherOrBoth', 'EitherOrBoth', 'Left', [self.a.next(E)])
+        if n == 'Greater':
+            return mk_enum('EitherOrBoth', 'EitherOrBoth', 'Right', [self.b.next(E)])
+        return mk_enum('EitherOrBoth', 'EitherOrBoth', 'Both', [self.a.next(E), self.b.next(E)])
+
+
+class PeekingTakeWhile(Iter):
+    def __init__(self, inner, f):
+        self.inner, self.f = inner, f
+
+    def next(self, E):
+        x = self.inner.peek(E)
+        if x is None:
+            return None
+        if E.ctx.branch(E.call_callable(self.f, [RefV(Cell(x, 'ptw'), ())])):
+            return self.inner.next(E)
+        return None
+
+
+class PutBackIter(Iter):
+    def __init__(self, inner):
+        self.inner = inner
+        self.top = None
+
+    def next(self, E):
+        if self.top is not None:
+            x = self.top
+            self.top = None
+            return x
+        return self.inner.next(E)
+
+
+def _peekable_of(E, v):
+    it = as_iter(E, v)
+    if isinstance(it, (PeekIter,)):
+        return it
+    if isinstance(it, PutBackIter):
+        raise Inconclusive('peeking over PutBack')
+    raise Inconclusive('peeking_take_while over a non-peekable iterator %r' % (it,))
+
+
+@model('from_fn', 'iter::from_fn')
+def _(E, c):
+    return iter_obj(FromFnIter(c.args[0]))
+
+
+@model('re:^<.* as Itertools>::(merge_join_by|peeking_take_while|collect_vec|sorted|sorted_by_key|dedup|unique|sum1|join|fold_ok|try_collect|next_tuple|collect_tuple|group_by|chunk_by|into_group_map|counts|all_equal|zip_eq|with_position|kmerge|tuple_windows|sorted_unstable|sorted_by)$',
+       're:^Itertools::(merge_join_by|peeking_take_while|collect_vec|sorted|sorted_by_key)$')
+def _(E, c):
+    m = c.callee.idents[-1]
+    if m == 'merge_join_by':
+        return iter_obj(MergeJoinIter(as_iter(E, c.args[0]), as_iter(E, c.args[1]), c.args[2]))
+    if m == 'peeking_take_while':
+        return iter_obj(PeekingTakeWhile(_peekable_of(E, c.args[0]), c.args[1]))
+    if m == 'collect_vec':
+        it = as_iter(E, c.args[0])
+        items = []
+        while True:
+            x = it.next(E)
+            if x is None:
+                return VecV(items, c.dest_ty)
+            items.append(x)
+    if m in ('sorted', 'sorted_unstable', 'sorted_by_key'):
+        it = as_iter(E, c.args[0])
+        items = []
+        while True:
+            x = it.next(E)
+            if x is None:
+                break
+            items.append(x)
+        cell = Cell(VecV(items), 'sorted')
+        E.do_call(c.frame, '<[T]>::sort' if m != 'sorted_by_key' else '<[T]>::sort_by_key',
+                  [RefV(cell, (), True)] + list(c.args[1:]), '()')
+        return iter_obj(ListIter(cell.value.items))
+    if m == 'zip_eq':
+        return iter_obj(ZipIter(as_iter(E, c.args[0]), as_iter(E, c.args[1])))
+    return NotImplemented
+
+
+@model('put_back', 'itertools::put_back')
+def _(E, c):
+    return iter_obj(PutBackIter(as_iter(E, c.args[0])))
+
+
+@model('PutBack::put_back')
+def _(E, c):
+    it = as_iter(E, c.args[0])
+    it.top = c.args[1]
+    return none(c.dest_ty)
+
+
+@model('re:^<PeekingTakeWhile as Iterator>::')
+def _(E, c):
+    return NotImplemented
